@@ -70,6 +70,11 @@ def _replay_record(rec):
         return True, f"real code raised {type(exc).__name__}: {exc} (while checking '{label}')"
     if label in goals and not goals[label]:
         return True, f"clause '{label}' is false on the real code"
+    if label not in goals:
+        # the clause is phrased over symbolic observables only; its float-mode counterparts are the other clauses of the same case
+        bad = [k for k, v in goals.items() if not v]
+        if bad:
+            return True, f"clause '{bad[0]}' (float-mode counterpart of '{label}') is false on the real code"
     return False, f"clause '{label}' holds on the real code for the model inputs"
 
 
@@ -99,7 +104,12 @@ def _search_witness(rec, n=24, seed=0, budget_s=60.0):
         except Exception as e:  # noqa
             goals, exc = {}, e
         label = rec["label"]
-        bad = (exc is not None) if label.startswith("no-exception") else (exc is None and label in goals and not bool(harness.split_goal(goals[label])[0]))
+        if label.startswith("no-exception"):
+            bad = exc is not None
+        elif exc is None and label in goals:
+            bad = not bool(harness.split_goal(goals[label])[0])
+        else:
+            bad = exc is None and label not in goals and any(not bool(harness.split_goal(g)[0]) for g in goals.values())
         if bad:
             return {k: (v.tolist() if hasattr(v, "tolist") else v) for k, v in m.values.items()}
     return None
